@@ -573,6 +573,9 @@ def _merge_frozen_sets_linked_by_bidirectional_edges(  # noqa:C901
     for e in graph.undirected.edges:
         v1 = e[0]
         v2 = e[1]
+        if v1 not in vertices_to_input_sets or v2 not in vertices_to_input_sets:
+            # an edge that leaves the input sets does not link any two of them
+            continue
         r1 = vertices_to_input_sets[v1]
         r2 = vertices_to_input_sets[v2]
         if r1 != r2:
